@@ -41,7 +41,7 @@ impl Prop for C11 {
         "C11"
     }
     fn rule(&self) -> String {
-        "cases = one handshake response in 4.1 or 3.20 layout with a random 32-bit (16-bit) capability mask, a user name of arbitrary non-NUL bytes (empty, non-UTF-8, up to 600 bytes), random trailing auth/db/plugin bytes and a response sequence id (1 mostly, else 0-255), against a shim with or without a TLS configuration (the SSL bit is only requested when TLS is *not* configured; the configured case is C18) that accepts or rejects with a tagged error, with 0-5 commands already pipelined behind the handshake, under a generated chunk schedule. Oracle: first server packet parses as a protocol-10 greeting (own decoder + mysql_common::HandshakePacket) with PROTOCOL_41 set, the SSL bit set iff TLS is configured, sequence id 0 and flushed before the first read; after_authentication is called exactly once, before any command callback, with exactly the user name sent; accept => OK with id+1 and all pipelined commands served; reject => ERR 1045/28000, run_on returns the very error the shim returned and no command callback runs; SSL requested without configuration => Err and no after_authentication. Non-trivial = non-default mask/user/layout, or pipelined commands with a rejection.".into()
+        "cases = one handshake response in 4.1 or 3.20 layout with a random 32-bit (16-bit) capability mask, a user name of arbitrary non-NUL bytes (empty, non-UTF-8, up to 600 bytes, occasionally ~64 KiB), random trailing auth/db/plugin bytes (occasionally ~64 KiB, up to 200 KB, or enough to make the response a multi-fragment message of >= 2^24-1 bytes) and a response sequence id (1 mostly, else 0-255), against a shim with or without a TLS configuration (the SSL bit is only requested when TLS is *not* configured; the configured case is C18) that accepts or rejects with a tagged error, with 0-5 commands already pipelined behind the handshake, under a generated chunk schedule. Oracle: first server packet parses as a protocol-10 greeting (own decoder + mysql_common::HandshakePacket) with PROTOCOL_41 set, the SSL bit set iff TLS is configured, sequence id 0 and flushed before the first read; after_authentication is called exactly once, before any command callback, with exactly the user name sent; accept => OK with id+1 and all pipelined commands served; reject => ERR 1045/28000, run_on returns the very error the shim returned and no command callback runs; SSL requested without configuration => Err and no after_authentication. Non-trivial = non-default mask/user/layout, or pipelined commands with a rejection.".into()
     }
     fn cases(&self, tier: Tier) -> u64 {
         tier.pick(400000, 3000000)
@@ -82,7 +82,14 @@ impl Prop for C11 {
             }
             HsKind::V320 { caps, max_packet: g.raw() & 0xff_ffff, user, tail }
         };
-        conv.hs = Handshake { kind, seq: if g.chance(3, 4) { 1 } else { g.byte() } };
+        // long user names / trailing data: up to and beyond the 64 KiB and 16 MiB packet-size classes
+        let (user_pad, tail_pad) = match g.weighted(&[980, 8, 8, 4]) {
+            0 => (0, 0),
+            1 => (0, g.usize_in(65_300, 65_700)),
+            2 => (g.usize_in(65_300, 65_700), 0),
+            _ => (g.usize_in(1000, 40_000), g.usize_in(30_000, 200_000)),
+        };
+        conv.hs = Handshake { kind, seq: if g.chance(3, 4) { 1 } else { g.byte() }, user_pad, tail_pad };
         if g.chance(1, 3) {
             conv.reject_auth = Some(1000 + g.below(1000) as u32);
         }
@@ -90,16 +97,45 @@ impl Prop for C11 {
         conv.sched = gen_schedule(g, len, &ends);
         Case { conv, tls_configured }
     }
+    fn fixed(&self, _tier: Tier) -> Vec<Case> {
+        // handshake responses at the packet-size class edges: 64 KiB and a multi-fragment one
+        let mut v = Vec::new();
+        for (i, &(user_pad, tail_pad)) in [(0usize, 65_535usize - 40), (0, 65_536), (65_536, 0), (0, MAX_PAYLOAD - 45), (0, MAX_PAYLOAD + 1000)].iter().enumerate() {
+            for reject in [false, true] {
+                let mut conv = Conversation::new(vec![Cmd::Ping, Cmd::Query { text: Blob::text("SELECT 1") }], vec![Action::Result(Program::completed(1, 1))]);
+                conv.hs = Handshake::default_user("longhs");
+                conv.hs.user_pad = user_pad;
+                conv.hs.tail_pad = tail_pad;
+                if i % 2 == 1 {
+                    conv.hs.kind = HsKind::V320 { caps: 0x0005, max_packet: 0xff_ffff, user: b"old".to_vec(), tail: vec![0] };
+                }
+                if reject {
+                    conv.reject_auth = Some(1234);
+                }
+                conv.sched = Schedule::fixed(1 << 20);
+                v.push(Case { conv, tls_configured: false });
+            }
+        }
+        v
+    }
     fn exec(&self, case: &Case) -> Exec {
         let mut ex = Exec::default();
         let c = &case.conv;
         let tls = if case.tls_configured { Some(crate::tlsfix::fixtures().server_plain.clone()) } else { None };
         let o = run_with(c, tls, false);
-        let (user, wants_ssl, v41) = match &c.hs.kind {
-            HsKind::V41 { caps, user, .. } => (user.clone(), caps & CAP_SSL != 0, true),
-            HsKind::V320 { caps, user, .. } => (user.clone(), (*caps as u32) & CAP_SSL != 0, false),
-            HsKind::Raw(_) => (vec![], false, true),
+        let (wants_ssl, v41) = match &c.hs.kind {
+            HsKind::V41 { caps, .. } => (caps & CAP_SSL != 0, true),
+            HsKind::V320 { caps, .. } => ((*caps as u32) & CAP_SSL != 0, false),
+            HsKind::Raw(_) => (false, true),
         };
+        let user = c.hs.user().unwrap_or_default();
+        let hs_len = c.hs.payload().len();
+        if hs_len > 65_535 {
+            ex.class("handshake-response>65535-bytes");
+        }
+        if hs_len >= MAX_PAYLOAD {
+            ex.class("handshake-response-multi-fragment");
+        }
         ex.nontrivial = !v41 || user != b"root" || (c.reject_auth.is_some() && !c.cmds.is_empty());
         ex.class(if v41 { "layout:4.1" } else { "layout:3.20" });
         ex.class(if case.tls_configured { "tls-configured" } else { "tls-not-configured" });
@@ -171,7 +207,7 @@ impl Prop for C11 {
         }
         if let Event::Auth { user: got, .. } = auths[0].1 {
             if got.as_deref() != Some(&user[..]) {
-                ex.fail("c11-username", format!("after_authentication got user {:?}, client sent {:?}", got.as_ref().map(|u| hex(u)), hex(&user)));
+                ex.fail("c11-username", format!("after_authentication got user {} ({} bytes), client sent {} ({} bytes)", got.as_ref().map(|u| hex(u)).unwrap_or_default(), got.as_ref().map(|u| u.len()).unwrap_or(0), hex(&user), user.len()));
             }
         }
         let auth_reply = match &d.auth {
